@@ -126,6 +126,8 @@ var _ io.Writer = (*c18Counter)(nil)
 
 const c18Wait = c18ref.Wait
 
+var c18Stalls, c18CancelMisses int32
+
 type c18Outcome struct {
 	coll            arvados.Collection
 	err             error
@@ -138,8 +140,16 @@ type c18Outcome struct {
 
 // c18RunOrder performs one CollectionGet with the answers of the non-hanging
 // remotes arriving in the given order.
-func c18RunOrder(c *c18Case, order []int, logger logrus.FieldLogger, idle int) c18Outcome {
-	var out c18Outcome
+func c18RunOrder(c *c18Case, order []int, logger logrus.FieldLogger, idle int) (out c18Outcome) {
+	if atomic.LoadInt32(&c18Stalls) >= 5 {
+		out.stall = "skipped after repeated stalls"
+		return out
+	}
+	defer func() {
+		if out.stall != "" {
+			atomic.AddInt32(&c18Stalls, 1)
+		}
+	}()
 	if !c18ref.Quiesce(idle) {
 		out.stall = "goroutines of the previous call did not finish"
 		return out
@@ -257,7 +267,11 @@ func c18RunOrder(c *c18Case, order []int, logger logrus.FieldLogger, idle int) c
 	}
 	// remotes that have not answered must now see the cancellation by themselves
 	pending := int(atomic.LoadInt32(&calls))
-	timeout := time.After(c18Wait)
+	cwait := c18Wait
+	if atomic.LoadInt32(&c18CancelMisses) >= 3 {
+		cwait = 100 * time.Millisecond // already inconclusive; do not wait 20 s every time
+	}
+	timeout := time.After(cwait)
 	for nexit < pending {
 		select {
 		case e := <-exited:
@@ -267,6 +281,7 @@ func c18RunOrder(c *c18Case, order []int, logger logrus.FieldLogger, idle int) c
 			}
 		case <-timeout:
 			out.cancelMiss = pending - nexit
+			atomic.AddInt32(&c18CancelMisses, 1)
 			cancel()
 			for nexit < pending {
 				<-exited
